@@ -20,6 +20,7 @@ BOUNDS = {"quick": "2 real threads parsing independent symbolic streams with the
 DEFS = {
     "expr-array": ("struct T { uint8 n; uint8 d[(n & 1) * 2]; uint8 t; };", 4),
     "expr-2": ("struct T { uint8 n; uint16 a[n & 1]; char c[(n >> 1) & 1]; };", 5),
+    "expr-neg": ("struct T { uint8 n; uint8 d[-n & 3]; uint8 t; };", 5),
     "bitfield": ("struct T { uint16 a:3; uint16 b:9; uint16 c:4; uint8 d; };", 3),
     "union": ("union U { uint16 a; uint8 b[2]; }; struct T { uint8 h; U u; };", 3),
     "enum": ("enum E : uint8 { A = 1, B }; struct T { E e; uint8 x; };", 2),
@@ -104,6 +105,8 @@ class Scheduler:
 def summarize(v, kind):
     """Comparable summary of a parsed value (terms or ints)."""
     if kind == "expr-array":
+        return [v.n, len(v.d), *list(v.d), v.t]
+    if kind == "expr-neg":
         return [v.n, len(v.d), *list(v.d), v.t]
     if kind == "expr-2":
         return [v.n, len(v.a), *list(v.a), len(v.c)]
@@ -209,7 +212,7 @@ def cases(tier, seed):
                         yield {"label": f"{kind} threads=2 preempt=1 warm={warm} dump={dump} slice={k}/{K}", "kind": kind, "cfg": cfg,
                                "threads": 2, "preempt": 1, "slice": [k, K], "warm": warm, "dump": dump}
                 if not quick:
-                    if kind in ("expr-2", "enum"):
+                    if kind in ("expr-2", "enum", "expr-neg"):
                         for k in range(16):
                             yield {"label": f"{kind} threads=2 preempt=2 slice={k}/16", "kind": kind, "cfg": cfg, "threads": 2, "preempt": 2,
                                    "slice": [k, 16]}
